@@ -32,12 +32,15 @@ pub struct BfsStats {
     pub depth_reached: usize,
     pub frontier_sizes: Vec<usize>,
     pub capped: bool,
+    /// Shortest path to every discovered state (when `collect_paths` is set).
+    pub paths: Vec<Vec<u16>>,
 }
 
 pub struct Bfs {
     pub max_depth: usize,
     pub max_states: usize,
     pub threads: usize,
+    pub collect_paths: bool,
 }
 
 impl Bfs {
@@ -50,6 +53,9 @@ impl Bfs {
             let d = m.digest();
             if seen.insert(d) {
                 // the index of the initial state is the first element of every path
+                if self.collect_paths {
+                    stats.paths.push(vec![i as u16]);
+                }
                 frontier.push((m, vec![i as u16]));
             }
         }
@@ -107,6 +113,9 @@ impl Bfs {
                         if seen.len() > self.max_states {
                             stats.capped = true;
                         } else {
+                            if self.collect_paths {
+                                stats.paths.push(p.clone());
+                            }
                             next_frontier.push((m, p));
                         }
                     }
